@@ -15,7 +15,7 @@
 From AB Require Import World.Step World.Exec Base.Base64Proofs Proofs.EvLogic Proofs.Neutral Proofs.HandlerEvents
   Proofs.ServeEvents Proofs.StepUid Proofs.MonadInv Proofs.Guards Proofs.Guards2 Proofs.Guards3 Proofs.StoreLogic
   Proofs.StepGuard Proofs.StepAll Proofs.TwoFactorProofs Proofs.OneTimeProofs Proofs.TokenProofs Proofs.FlowProofs
-  Proofs.OnceProofs Proofs.StoreShape Proofs.Wrapped Proofs.HistoryProofs.
+  Proofs.OnceProofs Proofs.StoreShape Proofs.Wrapped Proofs.HistoryProofs Proofs.StepLift2 Proofs.MwProofs.
 Open Scope Z_scope.
 
 (* ================================================================================================ *)
@@ -1251,3 +1251,677 @@ Proof.
   { repeat constructor. intros (raw & _ & Hr). exact Hr. }
   split; [discriminate|]. split; [reflexivity|]. vm_compute. reflexivity.
 Qed.
+
+(* ---- A2, second half: the refused cookie is deleted from the client ------------------------------- *)
+(* "no cookie event is added, and a first write made meanwhile flushes exactly the cookie events
+   recorded so far" *)
+Definition Rq (h h' : hst) : Prop :=
+  h_cev h' = h_cev h /\
+  (forall wr, h_out h = Some wr -> h_out h' = Some wr) /\
+  (h_out h = None -> forall wr, h_out h' = Some wr -> w_cev wr = h_cev h).
+#[export] Instance Pre_Rq : Pre Rq.
+Proof.
+  split.
+  - intros h. split; [reflexivity|]. split; [auto|]. intros Hn wr Hw. congruence.
+  - intros a b c (A1 & A2 & A3) (B1 & B2 & B3). split; [congruence|].
+    split; [intros wr Hw; apply B2, A2, Hw|]. intros Hn wr Hw.
+    destruct (h_out b) as [wb|] eqn:Hb.
+    + rewrite (B2 wb eq_refl) in Hw. inversion Hw; subst wb. exact (A3 Hn wr eq_refl).
+    + rewrite (B3 eq_refl wr Hw). exact A1.
+Qed.
+Lemma Rq_same h h' : h_cev h' = h_cev h -> h_out h' = h_out h -> Rq h h'.
+Proof.
+  intros A B. split; [exact A|]. split; [intros wr Hw; congruence|]. intros Hn wr Hw. congruence.
+Qed.
+Lemma Rq_write h r :
+  Rq h (match h_out h with Some _ => h | None => h <| h_out := Some (mkWritten r (h_sev h) (h_cev h)) |> end).
+Proof.
+  destruct (h_out h) as [w0|] eqn:Ho; [apply Rq_same; reflexivity|].
+  split; [reflexivity|]. split; [intros wr Hw; congruence|].
+  intros _ wr Hw. inversion Hw; subst. reflexivity.
+Qed.
+Ltac rq_side :=
+  let h := fresh "h" in intros h; unfold Monad.fresh;
+  first [ apply Rq_write
+        | (repeat match goal with |- context [match ?x with _ => _ end] => destruct x eqn:? end);
+          apply Rq_same; reflexivity ].
+
+Lemma rq_app_rest E full tf fr l c s2 : rl Rq (app_rest E full tf fr l c s2).
+Proof.
+  unfold app_rest. cbv zeta.
+  apply rl_bind; [exact _|unfold auth_middleware, mw_fail; rl_go; rq_side|intros ok].
+  destruct (negb ok); [apply rl_ret; exact _|].
+  apply rl_bind; [exact _|destruct l; [unfold lock_mw; rl_go; rq_side|apply rl_ret; exact _]|intros ok2].
+  destruct (negb ok2); [apply rl_ret; exact _|].
+  apply rl_bind; [exact _|destruct c; [unfold confirm_mw; rl_go; rq_side|apply rl_ret; exact _]|intros ok3].
+  destruct (negb ok3); [apply rl_ret; exact _|].
+  unfold app_handler. rl_go; rq_side.
+Qed.
+Lemma rq_remembered_view s : rl Rq (remembered_view s).
+Proof. unfold remembered_view. rl_go; rq_side. Qed.
+Lemma rq_error_tail E (x : res unit) :
+  rl Rq (match x with
+         | Err e => log [q_path (e_req E)] ;;; (if c_err_writes (e_cfg E) then write_resp (RespStatus 500) else ret tt) ;;; fail e
+         | Ok a => ret a
+         | Panic => panic
+         end).
+Proof. destruct x; rl_go; rq_side. Qed.
+
+Lemma expire_stage_noid E (e : bool) h :
+  ahas k_uid (e_sess E) = false -> (if e then expire_mw E else ret (e_sess E)) h = (Ok (e_sess E), h).
+Proof. intros Hn. destruct e; [|reflexivity]. unfold expire_mw. rewrite Hn. reflexivity. Qed.
+
+Lemma aget_noid j : ahas k_uid j = false -> bempty (aget k_uid j) = true.
+Proof. intros H. apply ahas_false_lookup in H. unfold aget. rewrite H. reflexivity. Qed.
+
+Section DEL.
+Variable C : crypto.
+Variable cfg : config.
+
+Lemma rm_absent_cookie_deleted w req O cookie raw U full tf fr l c e :
+  q_route req = RApp full tf fr l c true e ->
+  alookup k_rm (jar_get (q_browser req) (w_cook w)) = Some cookie ->
+  b64url_dec cookie = Some raw -> rm_parse_pid raw = Some U ->
+  rm_absent C cookie U (w_st w) ->
+  o_faults O = [] -> ahas k_uid (jar_get (q_browser req) (w_sess w)) = false ->
+  ob_resp (snd (step C cfg w (AReq req) O)) <> None ->
+  alookup k_rm (jar_get (q_browser req) (w_cook (fst (step C cfg w (AReq req) O)))) = None.
+Proof.
+  intros R Ck Dc Pp Ab NoF NoId Wr.
+  set (E := mkEnv C cfg O req (jar_get (q_browser req) (w_cook w)) (jar_get (q_browser req) (w_sess w))).
+  assert (RT : route_table E = Handler (app_stack E full tf fr l c true e)).
+  { unfold route_table. cbn [e_req E]. rewrite R. reflexivity. }
+  destruct (serve E (init_hst (w_st w) O)) as [r hf] eqn:Sv.
+  destruct (step_req_unfold C cfg w req O r hf Sv) as (_ & _ & Sc & So). rewrite Sc. rewrite So in Wr.
+  destruct (h_out hf) as [wr|] eqn:Hof.
+  2:{ exfalso. apply Wr. apply obs_resp_none. exact Hof. }
+  rewrite jar_get_set_eq.
+  assert (Hc : w_cev wr = [Del k_rm]); [|rewrite Hc; unfold apply_events; cbn [fold_left apply_event]; apply alookup_aremove_eq].
+  rewrite (serve_handler _ _ RT) in Sv. unfold with_error_handler in Sv.
+  set (h0 := init_hst (w_st w) O) in *.
+  (* the remember stage *)
+  assert (RM : forall x h1, remember_mw (with_sess E (e_sess E)) h0 = (x, h1) ->
+                 x = Ok tt /\ h_out h1 = None /\ h_cev h1 = [Del k_rm]).
+  { intros x h1 Eq. pose proof (remember_mw_out3 _ _ _ _ Eq) as K3. apply out3_inv in K3 as (K3 & _).
+    unfold remember_mw in Eq. unfold bind at 1 in Eq.
+    assert (Hb : bempty (aget k_uid (e_sess (with_sess E (e_sess E)))) = true) by exact (aget_noid _ NoId).
+    rewrite (current_user_id_nocache (with_sess E (e_sess E)) h0 eq_refl) in Eq. cbv beta iota in Eq.
+    rewrite Hb in Eq.
+    apply try_inv in Eq as [(y & k1 & RA & _ & K)|(RA & _)].
+    - destruct (remember_refused_lemma (with_sess E (jar_get (q_browser req) (w_sess w))) h0 y k1 cookie raw U Ck Dc Pp (Ab raw Dc) RA)
+        as (_ & _ & Hd). destruct (Hd NoF) as (-> & Cv). inversion K; subst x h1.
+      split; [reflexivity|]. split; [exact K3|exact Cv].
+    - destruct (remember_refused_lemma (with_sess E (jar_get (q_browser req) (w_sess w))) h0 Panic h1 cookie raw U Ck Dc Pp (Ab raw Dc) RA)
+        as (_ & _ & Hd). destruct (Hd NoF) as (Hx & _). discriminate Hx. }
+  (* from the state after the remember stage to the end: no cookie event, one flush *)
+  assert (FIN : forall h1, h_out h1 = None -> h_cev h1 = [Del k_rm] -> Rq h1 hf -> w_cev wr = [Del k_rm]).
+  { intros h1 Ho1 Cv1 (_ & _ & Q3). rewrite <- Cv1. exact (Q3 Ho1 wr Hof). }
+  apply try_inv in Sv as [(x & ha & AS & _ & K)|(AS & _)].
+  - assert (Qt : Rq ha hf) by exact (rq_error_tail E x _ _ _ K).
+    rewrite app_stack_cut in AS. unfold bind at 1 in AS. rewrite (expire_stage_noid E e h0 NoId) in AS.
+    apply bind_inv in AS as [(s2 & h2 & RS & AR)|[(er & RS & _)|(RS & _)]].
+    + apply bind_inv in RS as [(u1 & h1 & M1 & RV)|[(er & M1 & _)|(M1 & _)]];
+        destruct (RM _ _ M1) as (Hx & Ho1 & Cv1); try discriminate Hx.
+      apply (FIN h1 Ho1 Cv1).
+      eapply pre_trans; [exact (rq_remembered_view _ _ _ _ RV)|].
+      eapply pre_trans; [exact (rq_app_rest _ _ _ _ _ _ _ _ _ _ AR)|exact Qt].
+    + apply bind_inv in RS as [(u1 & h1 & M1 & RV)|[(er2 & M1 & _)|(M1 & _)]];
+        destruct (RM _ _ M1) as (Hx & Ho1 & Cv1); try discriminate Hx.
+      apply (FIN h1 Ho1 Cv1). eapply pre_trans; [exact (rq_remembered_view _ _ _ _ RV)|exact Qt].
+    + apply bind_inv in RS as [(u1 & h1 & M1 & RV)|[(er2 & M1 & _)|(M1 & _)]];
+        destruct (RM _ _ M1) as (Hx & Ho1 & Cv1); try discriminate Hx.
+      apply (FIN h1 Ho1 Cv1). eapply pre_trans; [exact (rq_remembered_view _ _ _ _ RV)|exact Qt].
+  - rewrite app_stack_cut in AS. unfold bind at 1 in AS. rewrite (expire_stage_noid E e h0 NoId) in AS.
+    apply bind_inv in AS as [(s2 & h2 & RS & AR)|[(er & RS & _)|(RS & _)]].
+    + apply bind_inv in RS as [(u1 & h1 & M1 & RV)|[(er & M1 & _)|(M1 & _)]];
+        destruct (RM _ _ M1) as (Hx & Ho1 & Cv1); try discriminate Hx.
+      apply (FIN h1 Ho1 Cv1).
+      eapply pre_trans; [exact (rq_remembered_view _ _ _ _ RV)|exact (rq_app_rest _ _ _ _ _ _ _ _ _ _ AR)].
+    + apply bind_inv in RS as [(u1 & h1 & M1 & RV)|[(er2 & M1 & _)|(M1 & _)]];
+        destruct (RM _ _ M1) as (Hx & Ho1 & Cv1); try discriminate Hx.
+      apply (FIN h1 Ho1 Cv1). exact (rq_remembered_view _ _ _ _ RV).
+    + apply bind_inv in RS as [(u1 & h1 & M1 & RV)|[(er2 & M1 & _)|(M1 & _)]];
+        destruct (RM _ _ M1) as (Hx & Ho1 & Cv1); try discriminate Hx.
+      apply (FIN h1 Ho1 Cv1). exact (rq_remembered_view _ _ _ _ RV).
+Qed.
+End DEL.
+
+Lemma rm_absent_step C cfg w a O cookie raw U :
+  crypto_laws C -> b64url_dec cookie = Some raw -> rm_parse_pid raw = Some U ->
+  ~ rm_exception C cookie U (a, O) ->
+  rm_absent C cookie U (w_st w) -> rm_absent C cookie U (w_st (fst (step C cfg w a O))).
+Proof.
+  intros L Dc Pp NE H. apply rm_absent_iff. apply (rm_at_most_step C L cfg w a O cookie raw U 0 Dc Pp NE).
+  apply rm_absent_iff. exact H.
+Qed.
+
+Lemma rm_absent_reading C cookie U st :
+  rm_absent C cookie U st <->
+  forall raw, b64url_dec cookie = Some raw -> bmem (b64std_enc (sha C raw)) (rmlookup U (s_rm st)) = false.
+Proof. reflexivity. Qed.
+Lemma rm_at_most_reading C cookie U st n :
+  rm_at_most C cookie U st n <->
+  forall raw, b64url_dec cookie = Some raw ->
+    (count_occ bytes_dec (rmlookup U (s_rm st)) (b64std_enc (sha C raw)) <= n)%nat.
+Proof. reflexivity. Qed.
+
+(* ================================================================================================ *)
+(* Part B: confirmation and recovery tokens                                                         *)
+(* ================================================================================================ *)
+(* the parsed body as the handlers read it: depends on the configuration and the request only *)
+Definition vals_of (cfg : config) (req : request) : amap :=
+  if c_api cfg then q_form req else q_form req ++ q_query req.
+Lemma values_vals_of E : values E = vals_of (e_cfg E) (e_req E).
+Proof. reflexivity. Qed.
+
+(* what is stored as selector for the decoded token raw: base64(sha512(first 32 bytes)) *)
+Definition tok_sel (C : crypto) (raw : bytes) : bytes := b64std_enc (sha C (firstn 32 raw)).
+Lemma tok_sel_selector E raw : selector_of E raw = tok_sel (e_C E) raw.
+Proof. reflexivity. Qed.
+
+(* no record's stored confirm (recover) selector is the one of the token [tok] (the URL value) *)
+Definition ctok_absent (C : crypto) (tok : bytes) (st : storage) : Prop :=
+  forall raw, b64url_dec tok = Some raw -> forall k u, In (k, u) (s_users st) -> u_csel u <> tok_sel C raw.
+Definition rtok_absent (C : crypto) (tok : bytes) (st : storage) : Prop :=
+  forall raw, b64url_dec tok = Some raw -> forall k u, In (k, u) (s_users st) -> u_rsel u <> tok_sel C raw.
+
+(* the 64-byte chunk a read of crypto/rand returns can begin with H *)
+Definition tok_hands_out (O : oracle) (H : bytes) : Prop :=
+  (exists c, In c (o_fresh O) /\ length c = 64%nat /\ firstn 32 c = H) \/ H = repeat x00 32.
+
+Definition ctok_exception (C : crypto) (tok : bytes) (ao : action * oracle) : Prop :=
+  exists raw, b64url_dec tok = Some raw /\
+    match fst ao with
+    | ASeed u _ => u_csel u = tok_sel C raw
+    | APlant _ _ _ | ASetJar _ _ _ => False
+    | _ => tok_hands_out (snd ao) (firstn 32 raw)
+    end.
+Definition rtok_exception (C : crypto) (tok : bytes) (ao : action * oracle) : Prop :=
+  exists raw, b64url_dec tok = Some raw /\
+    match fst ao with
+    | ASeed u _ => u_rsel u = tok_sel C raw
+    | APlant _ _ _ | ASetJar _ _ _ => False
+    | _ => tok_hands_out (snd ao) (firstn 32 raw)
+    end.
+
+Section B.
+Variable C : crypto.
+Hypothesis laws : crypto_laws C.
+Variable H : bytes.                           (* the first half of the token *)
+Notation SEL := (b64std_enc (sha C H)).
+
+(* cf = true: the confirm selector; cf = false: the recover selector *)
+Definition specB (cf : bool) : tkspec :=
+  mkSpec (fun s => cf = true -> s <> SEL) (fun s => cf = false -> s <> SEL) (fun _ _ => True)
+         (fun c => length c = 64%nat -> firstn 32 c <> H).
+
+Lemma specB_ok cf : sha C H <> [] -> H <> repeat x00 32 -> tk_ok C (specB cf).
+Proof using laws.
+  intros Hne Hz. split; cbn [specB t_cs t_rs t_gl t_gc]; auto.
+  - intros n Ln Hx. rewrite repeat_length in Ln. subst n. apply Hz. rewrite <- Hx. reflexivity.
+  - intros _ Hn. exact (b64std_enc_nonempty _ Hne (eq_sym Hn)).
+  - intros _ Hn. exact (b64std_enc_nonempty _ Hne (eq_sym Hn)).
+  - intros raw Ln Gc _ Heq. apply b64std_enc_inj, (sha_inj C laws) in Heq. exact (Gc Ln Heq).
+  - intros raw Ln Gc _ Heq. apply b64std_enc_inj, (sha_inj C laws) in Heq. exact (Gc Ln Heq).
+Qed.
+
+Lemma winv_specB_c st : winv (specB true) st <-> forall k u, In (k, u) (s_users st) -> u_csel u <> SEL.
+Proof.
+  split.
+  - intros [W _] k u Hin. exact (proj1 (W k u Hin) eq_refl).
+  - intros Hs. split; [|intros p; exact I]. intros k u Hin. split; [intros _; exact (Hs k u Hin)|intros Hx; discriminate Hx].
+Qed.
+Lemma winv_specB_r st : winv (specB false) st <-> forall k u, In (k, u) (s_users st) -> u_rsel u <> SEL.
+Proof.
+  split.
+  - intros [W _] k u Hin. exact (proj2 (W k u Hin) eq_refl).
+  - intros Hs. split; [|intros p; exact I]. intros k u Hin. split; [intros Hx; discriminate Hx|intros _; exact (Hs k u Hin)].
+Qed.
+
+Lemma specB_step cf cfg w a O :
+  sha C H <> [] -> ~ is_seed a -> ~ tok_hands_out O H ->
+  winv (specB cf) (w_st w) -> winv (specB cf) (w_st (fst (step C cfg w a O))).
+Proof using laws.
+  intros Hne NS NH W. apply step_winv; [apply specB_ok; [exact Hne|]|exact NS| |exact W].
+  - intros Hz. apply NH. right. exact Hz.
+  - cbn [specB t_gc]. intros c Hc Ln Hx. apply NH. left. exists c. auto.
+Qed.
+End B.
+
+Section BS.
+Variable C : crypto.
+Hypothesis laws : crypto_laws C.
+Variable cfg : config.
+
+Lemma seed_users w u rm O :
+  s_users (w_st (fst (step C cfg w (ASeed u rm) O))) = uput (u_pid u) u (s_users (w_st w)).
+Proof. reflexivity. Qed.
+
+(* B3: preservation *)
+Lemma ctok_absent_step w a O tok raw :
+  b64url_dec tok = Some raw -> sha C (firstn 32 raw) <> [] ->
+  ~ ctok_exception C tok (a, O) ->
+  ctok_absent C tok (w_st w) -> ctok_absent C tok (w_st (fst (step C cfg w a O))).
+Proof using laws.
+  intros Dc Hne NE Ab raw' Dc'. rewrite Dc in Dc'. inversion Dc'; subst raw'. unfold tok_sel.
+  apply (proj1 (winv_specB_c C (firstn 32 raw) _)).
+  assert (W : winv (specB C (firstn 32 raw) true) (w_st w)) by (apply (proj2 (winv_specB_c C (firstn 32 raw) _)); exact (Ab raw Dc)).
+  assert (NEx : forall X : Prop, (match a with ASeed u _ => u_csel u = tok_sel C raw | APlant _ _ _ | ASetJar _ _ _ => False
+                                  | _ => tok_hands_out O (firstn 32 raw) end) -> X).
+  { intros X Hx. exfalso. apply NE. exists raw. split; [exact Dc|exact Hx]. }
+  destruct a; try (apply specB_step; [exact laws|exact Hne|intros []|intros Hh; exact (NEx _ Hh)|exact W]).
+  - apply (proj2 (winv_specB_c C (firstn 32 raw) _)). intros k v Hin. rewrite seed_users in Hin.
+    apply uput_in in Hin as [Hin|Hin].
+    + inversion Hin; subst. intros Hx. exact (NEx _ Hx).
+    + exact (Ab raw Dc k v Hin).
+  - exact W.
+  - destruct cookie; exact W.
+Qed.
+
+Lemma rtok_absent_step w a O tok raw :
+  b64url_dec tok = Some raw -> sha C (firstn 32 raw) <> [] ->
+  ~ rtok_exception C tok (a, O) ->
+  rtok_absent C tok (w_st w) -> rtok_absent C tok (w_st (fst (step C cfg w a O))).
+Proof using laws.
+  intros Dc Hne NE Ab raw' Dc'. rewrite Dc in Dc'. inversion Dc'; subst raw'. unfold tok_sel.
+  apply (proj1 (winv_specB_r C (firstn 32 raw) _)).
+  assert (W : winv (specB C (firstn 32 raw) false) (w_st w)) by (apply (proj2 (winv_specB_r C (firstn 32 raw) _)); exact (Ab raw Dc)).
+  assert (NEx : forall X : Prop, (match a with ASeed u _ => u_rsel u = tok_sel C raw | APlant _ _ _ | ASetJar _ _ _ => False
+                                  | _ => tok_hands_out O (firstn 32 raw) end) -> X).
+  { intros X Hx. exfalso. apply NE. exists raw. split; [exact Dc|exact Hx]. }
+  destruct a; try (apply specB_step; [exact laws|exact Hne|intros []|intros Hh; exact (NEx _ Hh)|exact W]).
+  - apply (proj2 (winv_specB_r C (firstn 32 raw) _)). intros k v Hin. rewrite seed_users in Hin.
+    apply uput_in in Hin as [Hin|Hin].
+    + inversion Hin; subst. intros Hx. exact (NEx _ Hx).
+    + exact (Ab raw Dc k v Hin).
+  - exact W.
+  - destruct cookie; exact W.
+Qed.
+
+Lemma ctok_absent_grun tok raw :
+  b64url_dec tok = Some raw -> sha C (firstn 32 raw) <> [] ->
+  forall l w, Forall (fun ao => ~ ctok_exception C tok ao) l ->
+    ctok_absent C tok (w_st w) -> ctok_absent C tok (w_st (grun (step C cfg) w l)).
+Proof using laws.
+  intros Dc Hne. induction l as [|[a O] l IH]; intros w F Hab; cbn [grun]; [exact Hab|].
+  inversion F as [|? ? F1 F2]; subst. apply IH; [exact F2|]. exact (ctok_absent_step w a O tok raw Dc Hne F1 Hab).
+Qed.
+Lemma rtok_absent_grun tok raw :
+  b64url_dec tok = Some raw -> sha C (firstn 32 raw) <> [] ->
+  forall l w, Forall (fun ao => ~ rtok_exception C tok ao) l ->
+    rtok_absent C tok (w_st w) -> rtok_absent C tok (w_st (grun (step C cfg) w l)).
+Proof using laws.
+  intros Dc Hne. induction l as [|[a O] l IH]; intros w F Hab; cbn [grun]; [exact Hab|].
+  inversion F as [|? ? F1 F2]; subst. apply IH; [exact F2|]. exact (rtok_absent_step w a O tok raw Dc Hne F1 Hab).
+Qed.
+End BS.
+
+(* ---- storage after [serve] is storage after the route's handler --------------------------------- *)
+Lemma serve_st_handler E hd h r h' :
+  route_table E = Handler hd -> serve E h = (r, h') -> exists x ha, hd h = (x, ha) /\ h_st h' = h_st ha.
+Proof.
+  intros RT Sv. rewrite (serve_handler _ _ RT) in Sv. unfold with_error_handler in Sv.
+  apply try_inv in Sv as [(x & ha & Hd & _ & K)|(Hd & _)].
+  - exists x, ha. split; [exact Hd|].
+    match type of K with ?mm ha = _ => assert (Hp : pres h_st mm) by (destruct x; pres_go) end.
+    exact (Hp _ _ _ K).
+  - exists Panic, h'. auto.
+Qed.
+Lemma serve_st_nohandler E h r h' :
+  (forall hd, route_table E <> Handler hd) -> serve E h = (r, h') -> h_st h' = h_st h.
+Proof.
+  intros NH Sv. unfold serve in Sv. destruct (route_table E) as [hd| |] eqn:RT; [destruct (NH hd eq_refl)| |].
+  - exact (pres_write_resp h_st _ _ _ _ Sv).
+  - exact (pres_write_resp h_st _ _ _ _ Sv).
+Qed.
+
+Lemma route_confirm_cases E :
+  q_route (e_req E) = RConfirm ->
+  route_table E = Handler (confirm_get E) \/ (forall hd, route_table E <> Handler hd).
+Proof.
+  intros R. unfold route_table, when, on_method. rewrite R.
+  destruct (q_meth (e_req E)); cbn beta iota;
+    repeat match goal with |- context [if ?c then _ else _] => destruct c end;
+    first [left; reflexivity | right; intros hd Hx; discriminate Hx].
+Qed.
+Lemma route_recover_end_cases E :
+  q_route (e_req E) = RRecoverEnd ->
+  route_table E = Handler (recover_end_get E) \/ route_table E = Handler (recover_end_post E) \/
+  (forall hd, route_table E <> Handler hd).
+Proof.
+  intros R. unfold route_table, when, get_post. rewrite R.
+  destruct (q_meth (e_req E)); cbn beta iota;
+    repeat match goal with |- context [if ?c then _ else _] => destruct c end;
+    first [left; reflexivity | right; left; reflexivity | right; right; intros hd Hx; discriminate Hx].
+Qed.
+
+Lemma pres_st_recover_end_get E : pres h_st (recover_end_get E).
+Proof. unfold recover_end_get. pres_go. Qed.
+
+Section BR.
+Variable C : crypto.
+Variable cfg : config.
+
+(* B2: an absent token is refused *)
+Lemma confirm_absent_refused w req O :
+  q_route req = RConfirm ->
+  ctok_absent C (aget f_cnf (vals_of cfg req)) (w_st w) ->
+  w_st (fst (step C cfg w (AReq req) O)) = w_st w.
+Proof.
+  intros R Ab.
+  set (E := mkEnv C cfg O req (jar_get (q_browser req) (w_cook w)) (jar_get (q_browser req) (w_sess w))).
+  destruct (serve E (init_hst (w_st w) O)) as [r hf] eqn:Sv.
+  destruct (step_req_unfold C cfg w req O r hf Sv) as (St & _). rewrite St.
+  destruct (route_confirm_cases E R) as [RT|NH]; [|exact (serve_st_nohandler E _ _ _ NH Sv)].
+  destruct (serve_st_handler E _ _ _ _ RT Sv) as (x & ha & CG & ->).
+  apply (confirm_reject_cases_lemma E _ _ _ CG).
+  destruct (b64url_dec (aget f_cnf (values E))) as [raw|] eqn:Dc; [|left; reflexivity].
+  right. exists raw. split; [reflexivity|]. right. left. apply ufind_none. intros k v Hin.
+  apply beqb_neq. exact (Ab raw Dc k v Hin).
+Qed.
+
+Lemma recover_absent_refused w req O :
+  q_route req = RRecoverEnd ->
+  rtok_absent C (aget f_token (vals_of cfg req)) (w_st w) ->
+  w_st (fst (step C cfg w (AReq req) O)) = w_st w /\
+  forall b V, alookup k_uid (jar_get b (w_sess (fst (step C cfg w (AReq req) O)))) = Some V ->
+              alookup k_uid (jar_get b (w_sess w)) = Some V.
+Proof.
+  intros R Ab.
+  set (E := mkEnv C cfg O req (jar_get (q_browser req) (w_cook w)) (jar_get (q_browser req) (w_sess w))).
+  assert (NF : forall raw, b64url_dec (aget f_token (values E)) = Some raw ->
+                 ufind (fun u => beqb (u_rsel u) (selector_of E raw)) (s_users (w_st w)) = None).
+  { intros raw Dc. apply ufind_none. intros k v Hin. apply beqb_neq. exact (Ab raw Dc k v Hin). }
+  split.
+  - destruct (serve E (init_hst (w_st w) O)) as [r hf] eqn:Sv.
+    destruct (step_req_unfold C cfg w req O r hf Sv) as (St & _). rewrite St.
+    destruct (route_recover_end_cases E R) as [RT|[RT|NH]]; [| |exact (serve_st_nohandler E _ _ _ NH Sv)].
+    + destruct (serve_st_handler E _ _ _ _ RT Sv) as (x & ha & RG & ->). exact (pres_st_recover_end_get E _ _ _ RG).
+    + destruct (serve_st_handler E _ _ _ _ RT Sv) as (x & ha & RP & ->).
+      apply (recover_reject_unchanged_lemma E _ _ _ RP). intros raw u Dc _ F _ _.
+      cbn [init_hst h_st] in F. rewrite (NF raw Dc) in F. discriminate F.
+  - intros b V H1.
+    assert (NG : forall V', ~ g_recover E (w_st w) V').
+    { intros V' (_ & raw & u & Dc & _ & F & _). rewrite (NF raw Dc) in F. discriminate F. }
+    assert (CR : alookup k_uid (jar_get b (w_sess w)) <> Some V -> False).
+    { intros H0.
+      destruct (step_issued C cfg w (AReq req) O V b H1 H0) as [(rq & Ha & Hb & Cs)|[Ha|(j & Ha & _)]];
+        try discriminate Ha. inversion Ha; subst rq.
+      destruct Cs as [(R' & _)|[(R' & _)|[(R' & _)|[(R' & _ & _ & G)|[(pv & R' & _)|[(R' & _)|[(R' & _)|(f1 & f2 & f3 & f4 & f5 & f6 & R' & _)]]]]]]];
+        try (rewrite R in R'; discriminate R').
+      exact (NG V G). }
+    destruct (alookup k_uid (jar_get b (w_sess w))) as [v0|] eqn:L0.
+    + destruct (bytes_dec v0 V) as [->|Ne]; [reflexivity|]. exfalso. apply CR. congruence.
+    + exfalso. apply CR. discriminate.
+Qed.
+End BR.
+
+Section BA.
+Variable C : crypto.
+Hypothesis laws : crypto_laws C.
+Variable cfg : config.
+
+(* B4: the accepting step clears the selector; with unique selectors nobody else carries it *)
+Lemma confirm_accepted_absent w req O :
+  q_route req = RConfirm ->
+  w_st (fst (step C cfg w (AReq req) O)) <> w_st w ->
+  filed (w_st w) -> csel_unique (w_st w) ->
+  (forall raw, b64url_dec (aget f_cnf (vals_of cfg req)) = Some raw -> sha C (firstn 32 raw) <> []) ->
+  ctok_absent C (aget f_cnf (vals_of cfg req)) (w_st (fst (step C cfg w (AReq req) O))).
+Proof.
+  intros R Ch Fl Un Ne.
+  set (E := mkEnv C cfg O req (jar_get (q_browser req) (w_cook w)) (jar_get (q_browser req) (w_sess w))).
+  destruct (serve E (init_hst (w_st w) O)) as [r hf] eqn:Sv.
+  destruct (step_req_unfold C cfg w req O r hf Sv) as (St & _). rewrite St in *.
+  destruct (route_confirm_cases E R) as [RT|NH]; [|exfalso; apply Ch; exact (serve_st_nohandler E _ _ _ NH Sv)].
+  destruct (serve_st_handler E _ _ _ _ RT Sv) as (x & ha & CG & Hst). rewrite Hst in *.
+  destruct (confirm_get_cases E _ _ _ CG) as [U|(raw & u & D & Ln & F & V & Sta)]; [exfalso; apply Ch; exact U|].
+  cbn [init_hst h_st] in F, Sta.
+  pose proof (filedl_found _ _ _ Fl F) as Lu.
+  pose proof (ufind_sat _ _ _ F) as Su. apply beqb_eq in Su.
+  assert (SelNe : selector_of E raw <> []) by (apply b64std_enc_nonempty; exact (Ne raw D)).
+  intros raw' D' k v Hin. change (b64url_dec (aget f_cnf (values E)) = Some raw') in D'.
+  rewrite D in D'. inversion D'; subst raw'. rewrite Sta in Hin. cbn [s_users set] in Hin. simpl in Hin.
+  apply uput_in_nodup in Hin as [Heq|[Hin Nk]]; [| |exact (proj1 Fl)].
+  - inversion Heq; subst. cbn. intros Hx. apply SelNe. symmetry. exact Hx.
+  - intros Hx. apply Nk. symmetry.
+    apply (Un (u_pid u) k u v Lu (in_ulookup _ _ _ (proj1 Fl) Hin)); [rewrite Su; exact SelNe|].
+    rewrite Su, Hx. reflexivity.
+Qed.
+
+Lemma recover_accepted_absent w req O :
+  q_route req = RRecoverEnd ->
+  s_users (w_st (fst (step C cfg w (AReq req) O))) <> s_users (w_st w) ->
+  filed (w_st w) -> rsel_unique (w_st w) ->
+  (forall raw, b64url_dec (aget f_token (vals_of cfg req)) = Some raw -> sha C (firstn 32 raw) <> []) ->
+  rtok_absent C (aget f_token (vals_of cfg req)) (w_st (fst (step C cfg w (AReq req) O))).
+Proof.
+  intros R Ch Fl Un Ne.
+  set (E := mkEnv C cfg O req (jar_get (q_browser req) (w_cook w)) (jar_get (q_browser req) (w_sess w))).
+  destruct (serve E (init_hst (w_st w) O)) as [r hf] eqn:Sv.
+  destruct (step_req_unfold C cfg w req O r hf Sv) as (St & _). rewrite St in *.
+  destruct (route_recover_end_cases E R) as [RT|[RT|NH]].
+  - exfalso. apply Ch. destruct (serve_st_handler E _ _ _ _ RT Sv) as (x & ha & RG & ->).
+    rewrite (pres_st_recover_end_get E _ _ _ RG). reflexivity.
+  - destruct (serve_st_handler E _ _ _ _ RT Sv) as (x & ha & RP & Hst). rewrite Hst in *.
+    destruct (recover_end_cases E _ _ _ RP) as [U|(raw & u & D & Ln & F & Ex & V & _ & _ & (su & B1 & B2) & Fr)].
+    { exfalso. apply Ch. rewrite U. reflexivity. }
+    cbn [init_hst h_st] in F, Fr.
+    pose proof (filedl_found _ _ _ Fl F) as Lu.
+    pose proof (ufind_sat _ _ _ F) as Su. apply beqb_eq in Su.
+    destruct (keeps2fa_recover_end E (init_hst (w_st w) O) _ _ Fl (ctx_ok_none (init_hst (w_st w) O) eq_refl) RP) as (Fl' & _ & _).
+    apply upto_lock_recovered in B2 as (_ & P1 & P2 & P3 & _).
+    assert (SelNe : selector_of E raw <> []) by (apply b64std_enc_nonempty; exact (Ne raw D)).
+    intros raw' D' k v Hin. change (b64url_dec (aget f_token (values E)) = Some raw') in D'.
+    rewrite D in D'. inversion D'; subst raw'.
+    pose proof (in_ulookup _ _ _ (proj1 Fl') Hin) as Lv.
+    destruct (bytes_dec k (u_pid u)) as [->|Nk].
+    + rewrite B1 in Lv. inversion Lv; subst v. rewrite P2. intros Hx. apply SelNe. symmetry. exact Hx.
+    + rewrite Fr in Lv by exact Nk. intros Hx. apply Nk. symmetry.
+      apply (Un (u_pid u) k u v Lu Lv); [rewrite Su; exact SelNe|]. rewrite Su, Hx. reflexivity.
+  - exfalso. apply Ch. rewrite (serve_st_nohandler E _ _ _ NH Sv). reflexivity.
+Qed.
+
+(* [filed] is an invariant of every step *)
+Lemma step_filed w a O : filed (w_st w) -> filed (w_st (fst (step C cfg w a O))).
+Proof.
+  intros F. destruct (step C cfg w a O) as [w' o] eqn:St. cbn [fst].
+  destruct a as [| | | | |su srm| |]; try (refine (proj1 (StoreShape.step_shape C cfg w _ O w' o _ F St)); intros Hx; exact Hx).
+  assert (Ew : w' = fst (step C cfg w (ASeed su srm) O)) by (rewrite St; reflexivity).
+  rewrite Ew. unfold filed. rewrite (seed_users C cfg). apply filedl_uput. exact F.
+Qed.
+Lemma grun_filed l : forall w, filed (w_st w) -> filed (w_st (grun (step C cfg) w l)).
+Proof. induction l as [|[a O] l IH]; intros w F; cbn [grun]; [exact F|]. apply IH. apply step_filed. exact F. Qed.
+
+(* B5 *)
+Lemma confirm_never_again_lemma w0 l1 r1 O1 l2 r2 O2 tok raw :
+  b64url_dec tok = Some raw -> sha C (firstn 32 raw) <> [] ->
+  let w1 := fst (run C cfg w0 l1) in
+  let w1' := fst (run C cfg w0 (l1 ++ [(AReq r1, O1)])) in
+  let w2 := fst (run C cfg w0 (l1 ++ (AReq r1, O1) :: l2)) in
+  let w3 := fst (run C cfg w0 (l1 ++ (AReq r1, O1) :: l2 ++ [(AReq r2, O2)])) in
+  q_route r1 = RConfirm -> aget f_cnf (vals_of cfg r1) = tok -> w_st w1' <> w_st w1 ->
+  filed (w_st w1) -> csel_unique (w_st w1) ->
+  Forall (fun ao => ~ ctok_exception C tok ao) l2 ->
+  q_route r2 = RConfirm -> aget f_cnf (vals_of cfg r2) = tok ->
+  ctok_absent C tok (w_st w2) /\ w_st w3 = w_st w2.
+Proof using laws.
+  intros Dc Hne w1 w1' w2 w3 R1 T1 Ch Fl Un Q2 R2 T2.
+  assert (E1 : w1' = fst (step C cfg w1 (AReq r1) O1)).
+  { subst w1' w1. rewrite !run_grun. apply grun_snoc. }
+  assert (E2 : w2 = grun (step C cfg) w1' l2).
+  { subst w2 w1'. rewrite !run_grun, grun_mid, grun_snoc. reflexivity. }
+  assert (E3 : w3 = fst (step C cfg w2 (AReq r2) O2)).
+  { subst w3 w2. rewrite !run_grun. rewrite app_comm_cons, app_assoc. apply grun_snoc. }
+  assert (A1 : ctok_absent C tok (w_st w1')).
+  { rewrite E1, <- T1. apply confirm_accepted_absent; auto.
+    - rewrite <- E1. exact Ch.
+    - rewrite T1. intros raw' Dc'. rewrite Dc in Dc'. inversion Dc'; subst raw'. exact Hne. }
+  assert (A2 : ctok_absent C tok (w_st w2)).
+  { rewrite E2. exact (ctok_absent_grun C laws cfg tok raw Dc Hne l2 w1' Q2 A1). }
+  split; [exact A2|]. rewrite E3. apply confirm_absent_refused; [exact R2|]. rewrite T2. exact A2.
+Qed.
+
+Lemma recover_never_again_lemma w0 l1 r1 O1 l2 r2 O2 tok raw :
+  b64url_dec tok = Some raw -> sha C (firstn 32 raw) <> [] ->
+  let w1 := fst (run C cfg w0 l1) in
+  let w1' := fst (run C cfg w0 (l1 ++ [(AReq r1, O1)])) in
+  let w2 := fst (run C cfg w0 (l1 ++ (AReq r1, O1) :: l2)) in
+  let w3 := fst (run C cfg w0 (l1 ++ (AReq r1, O1) :: l2 ++ [(AReq r2, O2)])) in
+  q_route r1 = RRecoverEnd -> aget f_token (vals_of cfg r1) = tok -> s_users (w_st w1') <> s_users (w_st w1) ->
+  filed (w_st w1) -> rsel_unique (w_st w1) ->
+  Forall (fun ao => ~ rtok_exception C tok ao) l2 ->
+  q_route r2 = RRecoverEnd -> aget f_token (vals_of cfg r2) = tok ->
+  rtok_absent C tok (w_st w2) /\ w_st w3 = w_st w2 /\
+  forall b V, alookup k_uid (jar_get b (w_sess w3)) = Some V -> alookup k_uid (jar_get b (w_sess w2)) = Some V.
+Proof using laws.
+  intros Dc Hne w1 w1' w2 w3 R1 T1 Ch Fl Un Q2 R2 T2.
+  assert (E1 : w1' = fst (step C cfg w1 (AReq r1) O1)).
+  { subst w1' w1. rewrite !run_grun. apply grun_snoc. }
+  assert (E2 : w2 = grun (step C cfg) w1' l2).
+  { subst w2 w1'. rewrite !run_grun, grun_mid, grun_snoc. reflexivity. }
+  assert (E3 : w3 = fst (step C cfg w2 (AReq r2) O2)).
+  { subst w3 w2. rewrite !run_grun. rewrite app_comm_cons, app_assoc. apply grun_snoc. }
+  assert (A1 : rtok_absent C tok (w_st w1')).
+  { rewrite E1, <- T1. apply recover_accepted_absent; auto.
+    - rewrite <- E1. exact Ch.
+    - rewrite T1. intros raw' Dc'. rewrite Dc in Dc'. inversion Dc'; subst raw'. exact Hne. }
+  assert (A2 : rtok_absent C tok (w_st w2)).
+  { rewrite E2. exact (rtok_absent_grun C laws cfg tok raw Dc Hne l2 w1' Q2 A1). }
+  split; [exact A2|]. rewrite E3. apply recover_absent_refused; [exact R2|]. rewrite T2. exact A2.
+Qed.
+End BA.
+
+(* ---- non-vacuity for Part B (executable crypto instance) ------------------------------------------ *)
+Lemma single_filed k u : u_pid u = k -> filedl [(k, u)].
+Proof.
+  intros Hk. split; [repeat constructor; intros []|]. intros k' u' [Heq|[]]. inversion Heq; subst. reflexivity.
+Qed.
+Lemma single_unique st k u : s_users st = [(k, u)] -> csel_unique st /\ rsel_unique st.
+Proof.
+  intros Hs. split; intros p q a b Hp Hq _ _; rewrite Hs in Hp, Hq; cbn [ulookup] in Hp, Hq;
+    destruct (beqb p k) eqn:Bp; try discriminate Hp; destruct (beqb q k) eqn:Bq; try discriminate Hq;
+    apply beqb_eq in Bp, Bq; congruence.
+Qed.
+
+Definition bx_cfg : config :=
+  mkConfig [MAuth; MConfirm; MRecover] false false false false false false 3 300 3600 600 3600 (bs "/auth")
+           false false false DELETE GET false [] RespNotFound [] [] true false false.
+Definition bx_c1 : bytes := repeat "c"%byte 64.
+Definition bx_c2 : bytes := repeat "r"%byte 64.
+Definition bx_tok1 : bytes := b64url_enc bx_c1.
+Definition bx_tok2 : bytes := b64url_enc bx_c2.
+Definition bx_confirm (b : bytes) : request :=
+  mkRequest b GET RConfirm (bs "/confirm") [] [(f_cnf, bx_tok1)] [] false.
+Definition bx_l1c : list (action * oracle) :=
+  [(ASeed hx_user [], nx_oracle []); (AStartConfirm hx_pid, nx_oracle [bx_c1])].
+Definition bx_rstart : request :=
+  mkRequest (bs "b1") POST RRecoverStart (bs "/recover") [] [] [(f_email, hx_pid)] false.
+Definition bx_rend (b pw : bytes) : request :=
+  mkRequest b POST RRecoverEnd (bs "/recover/end") [] []
+            [(f_token, bx_tok2); (f_password, pw); (f_confirm_password, pw)] false.
+Definition bx_l1r : list (action * oracle) :=
+  [(ASeed hx_user [], nx_oracle []); (AReq bx_rstart, nx_oracle [bx_c2])].
+Definition bx_l2 : list (action * oracle) := [(ALock hx_pid, nx_oracle [])].
+
+Lemma bx_confirm_witness :
+  exists C cfg w0 l1 r1 O1 l2 r2 tok raw,
+    crypto_laws C /\ b64url_dec tok = Some raw /\ sha C (firstn 32 raw) <> [] /\
+    q_route r1 = RConfirm /\ aget f_cnf (vals_of cfg r1) = tok /\
+    w_st (fst (run C cfg w0 (l1 ++ [(AReq r1, O1)]))) <> w_st (fst (run C cfg w0 l1)) /\
+    filed (w_st (fst (run C cfg w0 l1))) /\ csel_unique (w_st (fst (run C cfg w0 l1))) /\
+    Forall (fun ao => ~ ctok_exception C tok ao) l2 /\ l2 <> [] /\
+    q_route r2 = RConfirm /\ aget f_cnf (vals_of cfg r2) = tok.
+Proof.
+  exists XC, bx_cfg, empty_world, bx_l1c, (bx_confirm (bs "b1")), (nx_oracle []), bx_l2, (bx_confirm (bs "b2")),
+         bx_tok1, bx_c1.
+  assert (Hs : exists u, s_users (w_st (fst (run XC bx_cfg empty_world bx_l1c))) = [(hx_pid, u)] /\ u_pid u = hx_pid).
+  { eexists. split; vm_compute; reflexivity. }
+  destruct Hs as (u & Hs & Hp).
+  split; [exact exec_laws|]. split; [vm_compute; reflexivity|]. split; [vm_compute; discriminate|].
+  split; [reflexivity|]. split; [reflexivity|]. split.
+  { intros Hx. apply (f_equal (fun st => map (fun ku => u_confirmed (snd ku)) (s_users st))) in Hx.
+    vm_compute in Hx. discriminate Hx. }
+  split; [unfold filed; rewrite Hs; exact (single_filed _ _ Hp)|].
+  split; [exact (proj1 (single_unique _ _ _ Hs))|].
+  split.
+  { repeat constructor. intros (raw & Dc & Hr). cbn [fst snd] in Hr.
+    assert (raw = bx_c1) by (vm_compute in Dc; inversion Dc; reflexivity). subst raw.
+    destruct Hr as [(c & [] & _)|Hr]. vm_compute in Hr. discriminate Hr. }
+  split; [discriminate|]. split; reflexivity.
+Qed.
+
+Lemma bx_recover_witness :
+  exists C cfg w0 l1 r1 O1 l2 r2 tok raw,
+    crypto_laws C /\ b64url_dec tok = Some raw /\ sha C (firstn 32 raw) <> [] /\
+    q_route r1 = RRecoverEnd /\ aget f_token (vals_of cfg r1) = tok /\
+    s_users (w_st (fst (run C cfg w0 (l1 ++ [(AReq r1, O1)])))) <> s_users (w_st (fst (run C cfg w0 l1))) /\
+    filed (w_st (fst (run C cfg w0 l1))) /\ rsel_unique (w_st (fst (run C cfg w0 l1))) /\
+    Forall (fun ao => ~ rtok_exception C tok ao) l2 /\ l2 <> [] /\
+    q_route r2 = RRecoverEnd /\ aget f_token (vals_of cfg r2) = tok.
+Proof.
+  exists XC, bx_cfg, empty_world, bx_l1r, (bx_rend (bs "b1") (bs "Newpassw0rd!")), (nx_oracle []), bx_l2,
+         (bx_rend (bs "b2") (bs "An0therpass!")), bx_tok2, bx_c2.
+  assert (Hs : exists u, s_users (w_st (fst (run XC bx_cfg empty_world bx_l1r))) = [(hx_pid, u)] /\ u_pid u = hx_pid).
+  { eexists. split; vm_compute; reflexivity. }
+  destruct Hs as (u & Hs & Hp).
+  split; [exact exec_laws|]. split; [vm_compute; reflexivity|]. split; [vm_compute; discriminate|].
+  split; [reflexivity|]. split; [reflexivity|]. split.
+  { intros Hx. apply (f_equal (map (fun ku => u_rsel (snd ku)))) in Hx.
+    vm_compute in Hx. discriminate Hx. }
+  split; [unfold filed; rewrite Hs; exact (single_filed _ _ Hp)|].
+  split; [exact (proj2 (single_unique _ _ _ Hs))|].
+  split.
+  { repeat constructor. intros (raw & Dc & Hr). cbn [fst snd] in Hr.
+    assert (raw = bx_c2) by (vm_compute in Dc; inversion Dc; reflexivity). subst raw.
+    destruct Hr as [(c & [] & _)|Hr]. vm_compute in Hr. discriminate Hr. }
+  split; [discriminate|]. split; reflexivity.
+Qed.
+
+(* ---- readings ------------------------------------------------------------------------------------ *)
+Lemma ctok_absent_reading C tok st :
+  ctok_absent C tok st <->
+  forall raw, b64url_dec tok = Some raw ->
+    forall k u, In (k, u) (s_users st) -> u_csel u <> b64std_enc (sha C (firstn 32 raw)).
+Proof. reflexivity. Qed.
+Lemma rtok_absent_reading C tok st :
+  rtok_absent C tok st <->
+  forall raw, b64url_dec tok = Some raw ->
+    forall k u, In (k, u) (s_users st) -> u_rsel u <> b64std_enc (sha C (firstn 32 raw)).
+Proof. reflexivity. Qed.
+Lemma ctok_exception_reading C tok a O :
+  ctok_exception C tok (a, O) <->
+  exists raw, b64url_dec tok = Some raw /\
+    match a with
+    | ASeed u _ => u_csel u = b64std_enc (sha C (firstn 32 raw))
+    | APlant _ _ _ | ASetJar _ _ _ => False
+    | _ => (exists c, In c (o_fresh O) /\ length c = 64%nat /\ firstn 32 c = firstn 32 raw) \/
+           firstn 32 raw = repeat x00 32
+    end.
+Proof. unfold ctok_exception, tok_hands_out, tok_sel. cbn [fst snd]. destruct a; reflexivity. Qed.
+Lemma rtok_exception_reading C tok a O :
+  rtok_exception C tok (a, O) <->
+  exists raw, b64url_dec tok = Some raw /\
+    match a with
+    | ASeed u _ => u_rsel u = b64std_enc (sha C (firstn 32 raw))
+    | APlant _ _ _ | ASetJar _ _ _ => False
+    | _ => (exists c, In c (o_fresh O) /\ length c = 64%nat /\ firstn 32 c = firstn 32 raw) \/
+           firstn 32 raw = repeat x00 32
+    end.
+Proof. unfold rtok_exception, tok_hands_out, tok_sel. cbn [fst snd]. destruct a; reflexivity. Qed.
+Lemma vals_of_reading cfg req :
+  vals_of cfg req = if c_api cfg then q_form req else q_form req ++ q_query req.
+Proof. reflexivity. Qed.
+
+Lemma run_filed C cfg l w : filed (w_st w) -> filed (w_st (fst (run C cfg w l))).
+Proof. intros F. rewrite run_grun. apply grun_filed. exact F. Qed.
+Lemma ctok_absent_run C cfg tok raw l w :
+  crypto_laws C -> b64url_dec tok = Some raw -> sha C (firstn 32 raw) <> [] ->
+  Forall (fun ao => ~ ctok_exception C tok ao) l ->
+  ctok_absent C tok (w_st w) -> ctok_absent C tok (w_st (fst (run C cfg w l))).
+Proof. intros L Dc Hne F Hab. rewrite run_grun. exact (ctok_absent_grun C L cfg tok raw Dc Hne l w F Hab). Qed.
+Lemma rtok_absent_run C cfg tok raw l w :
+  crypto_laws C -> b64url_dec tok = Some raw -> sha C (firstn 32 raw) <> [] ->
+  Forall (fun ao => ~ rtok_exception C tok ao) l ->
+  rtok_absent C tok (w_st w) -> rtok_absent C tok (w_st (fst (run C cfg w l))).
+Proof. intros L Dc Hne F Hab. rewrite run_grun. exact (rtok_absent_grun C L cfg tok raw Dc Hne l w F Hab). Qed.
